@@ -33,6 +33,7 @@
 (*   resurrect             UpdateMapping writes back a record that was deleted meanwhile        *)
 (*   crossSourceClaim      the same name is claimed in the repository and as a legacy mapping   *)
 (*   staleRegistryCache    a legacy mapping deleted on another node stays in this registry      *)
+(*   caseVariantClaim      a second spelling (letter case) of an owned name is claimed          *)
 EXTENDS Naturals, Sequences, FiniteSets, TLC, Json
 
 CONSTANTS ProcsC1, ProcsC2,  \* API-call processes acting with the proven identity of client c1 / c2
@@ -48,6 +49,8 @@ CONSTANTS ProcsC1, ProcsC2,  \* API-call processes acting with the proven identi
           Serial,               \* TRUE: calls do not overlap (sequential histories)
           MaxLegacy,         \* number of legacy (management API) HTTP mappings that may be created
           Fix,               \* TRUE: model of the repaired DeleteMapping / rollback
+          Spell,             \* host / subdomain spellings in use: subset of {"plain", "port", "upper", "dot", "v6", "v6port"}
+          CaseFold,          \* TRUE: model of the repaired index key (lower-cased full domain)
           Emit
 
 VARIABLES nextId, index, rec, clist, dlock,   \* the store
@@ -70,15 +73,33 @@ PreN == IF Pre THEN 1 ELSE 0
 MaxId == PreN + Cardinality(CProcs) * MaxOps
 Ids == 1..MaxId
 
-NoRec == [c |-> "-", n |-> "-", st |-> "none"]
+NoRec == [c |-> "-", n |-> "-", k |-> "-", st |-> "none"]
 Has(r) == r.st # "none"
 NoLeg == [id |-> 0, c |-> "-"]
-NoCur == [op |-> "none", n |-> "-", id |-> 0, st |-> "-", res |-> "-"]
+NoCur == [op |-> "none", n |-> "-", k |-> "-", fb |-> "-", id |-> 0, st |-> "-", res |-> "-"]
+
+\* Host spellings (finite table) and the normalisation the code implements:
+\*   extractDomain / DomainRegistry.LookupByHost cut the host at its LAST colon and change nothing else;
+\*   the repository looks the result up under HTTPDomainIndexKey (exact spelling; lower-cased once repaired).
+\*     plain   name              -> index key name                     registry / cloud control key name
+\*     port    name:8080         -> index key name                     registry / cloud control key name
+\*     upper   NAME              -> Up(name), or name with CaseFold    (no legacy entry under that spelling)
+\*     dot     name.             -> never an index key ("x." is no <sub>.<base domain>)
+\*     v6      [::1]             -> "[:"    never an index key
+\*     v6port  [::1]:8080        -> "[::1]" never an index key
+\* A subdomain may be claimed in the "plain" or the "upper" spelling (the code validates nothing about it).
+Up(n) == n \o "^"
+Keys == Names \cup {Up(n) : n \in Names}
+KeyOf(sp, n) == CASE sp \in {"plain", "port"} -> n
+                  [] sp = "upper" -> IF CaseFold THEN n ELSE Up(n)
+                  [] OTHER -> "none"
+Denotes(sp, n) == IF sp \in {"v6", "v6port"} THEN "-" ELSE n      \* the DNS name a spelling stands for
+FbKey(sp, n) == IF sp \in {"plain", "port"} THEN n ELSE "-"         \* key of the two legacy sources
 NoSnap == [dead |-> {}, inact |-> {}, legdead |-> {}]
 
 Init == /\ nextId = PreN
-        /\ index = [n \in Names |-> IF Pre /\ n = FirstName THEN 1 ELSE 0]
-        /\ rec = [i \in Ids |-> IF Pre /\ i = 1 THEN [c |-> "c1", n |-> FirstName, st |-> "active"] ELSE NoRec]
+        /\ index = [k \in Keys |-> IF Pre /\ k = FirstName THEN 1 ELSE 0]
+        /\ rec = [i \in Ids |-> IF Pre /\ i = 1 THEN [c |-> "c1", n |-> FirstName, k |-> FirstName, st |-> "active"] ELSE NoRec]
         /\ clist = [c \in Clients |-> IF Pre /\ c = "c1" THEN {1} ELSE {}]
         /\ dlock = [i \in Ids |-> FALSE]
         /\ reg = [n \in Names |-> NoLeg] /\ cc = [n \in Names |-> NoLeg] /\ nleg = 0
@@ -86,17 +107,17 @@ Init == /\ nextId = PreN
         /\ tmp = [p \in Procs |-> NoRec] /\ done = [p \in Procs |-> 0]
         /\ fault = Faults
         /\ okc = (IF Pre THEN {1} ELSE {}) /\ failc = {} /\ deld = {} /\ delok = {} /\ inact = {}
-        /\ meta = [i \in Ids |-> IF Pre /\ i = 1 THEN [c |-> "c1", n |-> FirstName] ELSE [c |-> "-", n |-> "-"]]
+        /\ meta = [i \in Ids |-> IF Pre /\ i = 1 THEN [c |-> "c1", n |-> FirstName, k |-> FirstName] ELSE [c |-> "-", n |-> "-", k |-> "-"]]
         /\ legdead = {} /\ snap = [p \in Procs |-> NoSnap]
         /\ bad = {} /\ dev = {} /\ hist = <<>>
 
 Out(h) == IF Emit THEN PrintT("BEH " \o ToJson(h)) ELSE TRUE
 \* one history entry per step: process, action, whether the storage write of this step was made to fail,
 \* the arguments of a call, and - on the step that makes the call return - the result the model expects
-\* (compact encoding "p|a|f|r" resp. "p|a|f|r|op|c|n|id|st" to keep the generated output small)
+\* (compact encoding "p|a|f|r" resp. "p|a|f|r|op|c|n|id|st|sp" to keep the generated output small)
 Log(e) == hist' = Append(hist, e) /\ Out(hist')
 St(p, a, f, r) == p \o "|" \o a \o "|" \o (IF f THEN "1" ELSE "0") \o "|" \o r
-CallSt(p, a, op, c, n, i, st) == St(p, a, FALSE, "-") \o "|" \o op \o "|" \o c \o "|" \o n \o "|" \o ToString(i) \o "|" \o st
+CallSt(p, a, op, c, n, i, st, sp) == St(p, a, FALSE, "-") \o "|" \o op \o "|" \o c \o "|" \o n \o "|" \o ToString(i) \o "|" \o st \o "|" \o sp
 
 Live == okc \ deld                         \* created successfully, no effective delete has begun
 Known == IF Guess THEN Ids ELSE okc        \* ids a client can name in a Delete / Update call
@@ -115,29 +136,29 @@ Call(p, c, first) ==
   /\ UNCHANGED <<done, fault>> /\ U_store /\ U_leg
   /\ UNCHANGED <<okc, failc, deld, delok, inact, meta, bad, dev>>
 
-CallCreate(p, n) ==
-  /\ p \in CProcs /\ done[p] < MaxOps /\ "Create" \in Kinds
-  /\ Call(p, [NoCur EXCEPT !.op = "Create", !.n = n, !.st = "active"], IF p \in HandlerProcs THEN "C_pre" ELSE "C_id")
+CallCreate(p, n, sp) ==
+  /\ p \in CProcs /\ done[p] < MaxOps /\ "Create" \in Kinds /\ sp \in Spell \cap {"plain", "upper"}
+  /\ Call(p, [NoCur EXCEPT !.op = "Create", !.n = n, !.k = KeyOf(sp, n), !.st = "active"], IF p \in HandlerProcs THEN "C_pre" ELSE "C_id")
   /\ snap' = snap
-  /\ Log(CallSt(p, "Call", "Create", Cl(p), n, 0, "-"))
+  /\ Log(CallSt(p, "Call", "Create", Cl(p), n, 0, "-", sp))
 
 CallDelete(p, i) ==
   /\ p \in CProcs /\ done[p] < MaxOps /\ "Delete" \in Kinds /\ i \in Known
   /\ Call(p, [NoCur EXCEPT !.op = "Delete", !.id = i, !.res = "ok"], "D_get")
   /\ snap' = snap
-  /\ Log(CallSt(p, "Call", "Delete", Cl(p), "-", i, "-"))
+  /\ Log(CallSt(p, "Call", "Delete", Cl(p), "-", i, "-", "-"))
 
 CallUpdate(p, i, s) ==     \* only the owner's side ever updates (expiry / status); no client-facing path
   /\ p \in CProcs /\ done[p] < MaxOps /\ "Update" \in Kinds /\ i \in okc /\ meta[i].c = Cl(p)
   /\ Call(p, [NoCur EXCEPT !.op = "Update", !.id = i, !.st = s], "U_get")
   /\ snap' = snap
-  /\ Log(CallSt(p, "Call", "Update", Cl(p), "-", i, s))
+  /\ Log(CallSt(p, "Call", "Update", Cl(p), "-", i, s, "-"))
 
-CallLookup(q, n) ==
-  /\ q \in LookProcs /\ done[q] < MaxLook
-  /\ Call(q, [NoCur EXCEPT !.op = "Lookup", !.n = n], "L_idx")
+CallLookup(q, n, sp) ==
+  /\ q \in LookProcs /\ done[q] < MaxLook /\ sp \in Spell
+  /\ Call(q, [NoCur EXCEPT !.op = "Lookup", !.n = Denotes(sp, n), !.k = KeyOf(sp, n), !.fb = FbKey(sp, n)], "L_idx")
   /\ snap' = [snap EXCEPT ![q] = [dead |-> delok \cup failc, inact |-> inact, legdead |-> legdead]]
-  /\ Log(CallSt(q, "Call", "Lookup", "-", n, 0, "-"))
+  /\ Log(CallSt(q, "Call", "Lookup", "-", n, 0, "-", sp))
 
 \* the call of p returns
 Return(p) == /\ pc' = [pc EXCEPT ![p] = "idle"] /\ done' = [done EXCEPT ![p] = done[p] + 1]
@@ -146,7 +167,7 @@ Goto(p, l) == /\ pc' = [pc EXCEPT ![p] = l] /\ done' = done
 \* ---- CreateMapping ----------------------------------------------------------------------------
 CPre(p) ==   \* handler: checker.IsSubdomainAvailable = Exists(index)
   /\ pc[p] = "C_pre"
-  /\ IF index[cur[p].n] # 0 THEN Return(p) /\ Log(St(p, "ChkIndex", FALSE, "fail"))
+  /\ IF index[cur[p].k] # 0 THEN Return(p) /\ Log(St(p, "ChkIndex", FALSE, "fail"))
                             ELSE Goto(p, "C_id") /\ Log(St(p, "ChkIndex", FALSE, "-"))
   /\ UNCHANGED <<cur, tmp, fault>> /\ U_store /\ U_leg /\ U_ghost
 
@@ -154,17 +175,19 @@ CId(p) ==    \* Incr(next_id): atomic counter of the shared tier
   /\ pc[p] = "C_id" /\ nextId < MaxId
   /\ nextId' = nextId + 1
   /\ cur' = [cur EXCEPT ![p].id = nextId + 1]
-  /\ meta' = [meta EXCEPT ![nextId + 1] = [c |-> Cl(p), n |-> cur[p].n]]
+  /\ meta' = [meta EXCEPT ![nextId + 1] = [c |-> Cl(p), n |-> cur[p].n, k |-> cur[p].k]]
   /\ Goto(p, "C_nx")
   /\ UNCHANGED <<index, rec, clist, dlock, tmp, fault, okc, failc, deld, delok, inact, snap, bad, dev>> /\ U_leg
   /\ Log(St(p, "NextId", FALSE, "-"))
 
 CNx(p) ==    \* SetNX(index:<name>, id)
   /\ pc[p] = "C_nx"
-  /\ LET n == cur[p].n IN
-     IF index[n] = 0
-     THEN /\ index' = [index EXCEPT ![n] = cur[p].id]
-          /\ dev' = IF cc[n] # NoLeg \/ reg[n] # NoLeg THEN dev \cup {"crossSourceClaim"} ELSE dev
+  /\ LET n == cur[p].n
+         k == cur[p].k IN
+     IF index[k] = 0
+     THEN /\ index' = [index EXCEPT ![k] = cur[p].id]
+          /\ dev' = dev \cup (IF cc[n] # NoLeg \/ reg[n] # NoLeg THEN {"crossSourceClaim"} ELSE {})
+                         \cup (IF \E k2 \in Keys \ {k} : index[k2] # 0 /\ meta[index[k2]].n = n THEN {"caseVariantClaim"} ELSE {})
           /\ failc' = failc
           /\ Goto(p, "C_rec") /\ Log(St(p, "ClaimIndex", FALSE, "-"))
      ELSE /\ index' = index /\ dev' = dev
@@ -174,7 +197,7 @@ CNx(p) ==    \* SetNX(index:<name>, id)
 
 CRec(p) ==   \* Set(mapping:<id>); a failure rolls the index back
   /\ pc[p] = "C_rec"
-  /\ \/ /\ rec' = [rec EXCEPT ![cur[p].id] = [c |-> Cl(p), n |-> cur[p].n, st |-> "active"]]
+  /\ \/ /\ rec' = [rec EXCEPT ![cur[p].id] = [c |-> Cl(p), n |-> cur[p].n, k |-> cur[p].k, st |-> "active"]]
         /\ fault' = fault /\ Goto(p, "C_list") /\ Log(St(p, "PutRec", FALSE, "-"))
      \/ /\ fault > 0 /\ fault' = fault - 1 /\ rec' = rec
         /\ Goto(p, "C_rb_idx") /\ Log(St(p, "PutRec", TRUE, "-"))
@@ -201,7 +224,7 @@ CRbRec(p) == \* rollback: Delete(mapping:<id>)
 
 CRbIdx(p) == \* rollback: Delete(index:<name>) - unconditional
   /\ pc[p] = "C_rb_idx"
-  /\ LET n == cur[p].n IN
+  /\ LET n == cur[p].k IN
      /\ index' = [index EXCEPT ![n] = 0]
      /\ dev' = IF index[n] \notin {0, cur[p].id} THEN dev \cup {"rollbackForeignIndex"} ELSE dev
   /\ failc' = failc \cup {cur[p].id}
@@ -239,7 +262,7 @@ DGet(p) ==   \* GetMapping + owner check
 
 DIdx(p) ==   \* Delete(index:<name>)  (unrepaired code: unconditional)
   /\ pc[p] = "D_idx"
-  /\ LET n == tmp[p].n IN
+  /\ LET n == tmp[p].k IN
      \/ /\ index' = [index EXCEPT ![n] = 0]
         /\ dev' = IF index[n] \notin {0, cur[p].id} THEN dev \cup {"foreignIndexDelete"} ELSE dev
         /\ deld' = deld \cup {cur[p].id}
@@ -284,7 +307,7 @@ DGet2(p) ==  \* GetMapping under the claim
 
 DIGet(p) ==  \* Get(index:<name>): delete it only if it still names this mapping
   /\ pc[p] = "D_iget"
-  /\ Goto(p, IF index[tmp[p].n] = cur[p].id THEN "D_idx" ELSE "D_rec")
+  /\ Goto(p, IF index[tmp[p].k] = cur[p].id THEN "D_idx" ELSE "D_rec")
   /\ UNCHANGED <<cur, tmp, fault>> /\ U_store /\ U_leg /\ U_ghost
   /\ Log(St(p, "DelIdxGet", FALSE, "-"))
 
@@ -314,14 +337,14 @@ RGet(p) ==
 
 RIGet(p) ==
   /\ pc[p] = "R_iget"
-  /\ Goto(p, IF index[cur[p].n] = cur[p].id THEN "R_idx" ELSE "R_rec")
+  /\ Goto(p, IF index[cur[p].k] = cur[p].id THEN "R_idx" ELSE "R_rec")
   /\ UNCHANGED <<cur, tmp, fault>> /\ U_store /\ U_leg /\ U_ghost
   /\ Log(St(p, "RbIdxGet", FALSE, "-"))
 
 RIdx(p) ==
   /\ pc[p] = "R_idx"
-  /\ index' = [index EXCEPT ![cur[p].n] = 0]
-  /\ dev' = IF index[cur[p].n] \notin {0, cur[p].id} THEN dev \cup {"rollbackForeignIndex"} ELSE dev
+  /\ index' = [index EXCEPT ![cur[p].k] = 0]
+  /\ dev' = IF index[cur[p].k] \notin {0, cur[p].id} THEN dev \cup {"rollbackForeignIndex"} ELSE dev
   /\ Goto(p, "R_rec")
   /\ UNCHANGED <<nextId, rec, clist, dlock, cur, tmp, fault, okc, failc, deld, delok, inact, meta, snap, bad>> /\ U_leg
   /\ Log(St(p, "RbIdx", FALSE, "-"))
@@ -369,7 +392,10 @@ USet(p) ==
 \* fallbacks 2 and 3 use no storage operation of the repository: they happen in the same step as
 \* the repository miss that leads to them
 Fallback(q, n) ==
-  IF reg[n] # NoLeg
+  IF n = "-"
+  THEN /\ reg' = reg /\ bad' = bad
+       /\ Log(St(q, pc[q], FALSE, "reject"))
+  ELSE IF reg[n] # NoLeg
   THEN /\ reg' = reg
        /\ bad' = IF reg[n].id \in snap[q].legdead THEN bad \cup {"routeDeadLegacy"} ELSE bad
        /\ Log(St(q, pc[q], FALSE, "leg:" \o ToString(reg[n].id)))
@@ -382,10 +408,10 @@ Fallback(q, n) ==
 
 LIdx(q) ==   \* Get(index:<name>)
   /\ pc[q] = "L_idx"
-  /\ LET n == cur[q].n IN
-     IF index[n] = 0
-     THEN Return(q) /\ Fallback(q, n) /\ cur' = cur
-     ELSE /\ cur' = [cur EXCEPT ![q].id = index[n]] /\ Goto(q, "L_rec")
+  /\ LET k == cur[q].k IN
+     IF k \notin Keys \/ index[k] = 0
+     THEN Return(q) /\ Fallback(q, cur[q].fb) /\ cur' = cur
+     ELSE /\ cur' = [cur EXCEPT ![q].id = index[k]] /\ Goto(q, "L_rec")
           /\ reg' = reg /\ bad' = bad /\ Log(St(q, "L_idx", FALSE, "-"))
   /\ UNCHANGED <<tmp, fault, cc, nleg, legdead, okc, failc, deld, delok, inact, meta, snap, dev>> /\ U_store
 
@@ -394,7 +420,7 @@ LRec(q) ==   \* Get(mapping:<id>), status / expiry check
   /\ LET i == cur[q].id
          r == rec[i]
          n == cur[q].n IN
-     IF ~Has(r) THEN Return(q) /\ Fallback(q, n)
+     IF ~Has(r) THEN Return(q) /\ Fallback(q, cur[q].fb)
      ELSE IF r.st # "active" THEN /\ Return(q) /\ reg' = reg /\ bad' = bad /\ Log(St(q, "L_rec", FALSE, "reject"))
      ELSE /\ Return(q) /\ reg' = reg
           /\ bad' = bad \cup (IF i \in snap[q].dead THEN {"routeDead"} ELSE {})
@@ -415,7 +441,7 @@ LegCreate(c, n, here) ==
   /\ dev' = dev \cup (IF \E i \in Live : meta[i].n = n THEN {"crossSourceClaim"} ELSE {})
                 \cup (IF ~here /\ reg[n] # NoLeg THEN {"staleRegistryCache"} ELSE {})
   /\ UNCHANGED <<pc, cur, tmp, done, fault, legdead, okc, failc, deld, delok, inact, meta, snap, bad>> /\ U_store
-  /\ Log(CallSt("adm", "LegCreate", "LegCreate", c, n, nleg + 1, IF here THEN "here" ELSE "other"))
+  /\ Log(CallSt("adm", "LegCreate", "LegCreate", c, n, nleg + 1, IF here THEN "here" ELSE "other", "-"))
 
 LegDelete(n, here) ==
   /\ cc[n] # NoLeg /\ (Serial => AllIdle)
@@ -424,9 +450,9 @@ LegDelete(n, here) ==
   /\ legdead' = legdead \cup {cc[n].id}
   /\ dev' = IF ~here /\ reg[n].id = cc[n].id THEN dev \cup {"staleRegistryCache"} ELSE dev
   /\ UNCHANGED <<pc, cur, tmp, done, fault, nleg, okc, failc, deld, delok, inact, meta, snap, bad>> /\ U_store
-  /\ Log(CallSt("adm", "LegDelete", "LegDelete", cc[n].c, n, cc[n].id, IF here THEN "here" ELSE "other"))
+  /\ Log(CallSt("adm", "LegDelete", "LegDelete", cc[n].c, n, cc[n].id, IF here THEN "here" ELSE "other", "-"))
 
-Next == \/ \E p \in CProcs : \/ \E n \in Names : CallCreate(p, n)
+Next == \/ \E p \in CProcs : \/ \E n \in Names, sp \in Spell : CallCreate(p, n, sp)
                              \/ \E i \in Ids : CallDelete(p, i)
                              \/ \E i \in Ids, s \in {"inactive", "expired"} : CallUpdate(p, i, s)
                              \/ CPre(p) \/ CId(p) \/ CNx(p) \/ CRec(p) \/ CList(p) \/ CRbRec(p) \/ CRbIdx(p)
@@ -435,7 +461,7 @@ Next == \/ \E p \in CProcs : \/ \E n \in Names : CallCreate(p, n)
                              \/ DLock(p) \/ DGet2(p) \/ DIGet(p) \/ DUnlock(p)
                              \/ RLock(p) \/ RGet(p) \/ RIGet(p) \/ RIdx(p) \/ RRec(p) \/ RList(p) \/ RUnlock(p)
                              \/ UGet(p) \/ USet(p)
-        \/ \E q \in LookProcs : \/ \E n \in Names : CallLookup(q, n)
+        \/ \E q \in LookProcs : \/ \E n \in Names, sp \in Spell : CallLookup(q, n, sp)
                                 \/ LIdx(q) \/ LRec(q)
         \/ \E c \in Clients, n \in Names, h \in BOOLEAN : LegCreate(c, n, h)
         \/ \E n \in Names, h \in BOOLEAN : LegDelete(n, h)
@@ -443,7 +469,7 @@ Spec == Init /\ [][Next]_vars
 
 \* ---- properties (C19) ---------------------------------------------------------------------------
 TypeOK == /\ nextId \in 0..MaxId /\ fault \in 0..Faults
-          /\ \A n \in Names : index[n] \in 0..MaxId
+          /\ \A k \in Keys : index[k] \in 0..MaxId
           /\ \A p \in Procs : done[p] \in 0..(MaxOps + MaxLook)
 
 \* (1) at most one live mapping owns a full domain name (legacy mappings count as owners too)
@@ -461,15 +487,15 @@ OwnerOnly == \A p \in CProcs : pc[p] \in {"D_idx", "D_rec", "D_list", "D_lock", 
 \*     mapping is reachable through the index and listed for its owner
 Quiet == \A p \in Procs : pc[p] = "idle"
 Consistent == Quiet =>
-  /\ \A n \in Names : index[n] # 0 => (Has(rec[index[n]]) /\ rec[index[n]].n = n)
-  /\ \A i \in Live : Has(rec[i]) /\ index[meta[i].n] = i /\ i \in clist[meta[i].c]
+  /\ \A k \in Keys : index[k] # 0 => (Has(rec[index[k]]) /\ rec[index[k]].k = k)
+  /\ \A i \in Live : Has(rec[i]) /\ index[meta[i].k] = i /\ i \in clist[meta[i].c]
 
 \* (5) after the owner's delete has returned the name is claimable again unless somebody re-claimed it
-Claimable == Quiet => \A i \in delok : index[meta[i].n] # i
+Claimable == Quiet => \A i \in delok : index[meta[i].k] # i
 
 \* deviations that are recorded as known findings / repaired by Fix: one of them does not hide other routes
 Excused == dev \cap {"crossSourceClaim", "staleRegistryCache"} # {}
 OneOwnerX == OneOwner \/ Excused
 RouteOKX == RouteOK \/ Excused
-NoIndexTheft == dev \cap {"foreignIndexDelete", "rollbackForeignIndex"} = {}
+NoIndexTheft == dev \cap {"foreignIndexDelete", "rollbackForeignIndex", "caseVariantClaim"} = {}
 =============================================================================
